@@ -385,6 +385,9 @@ def _merge_single_markers(
     from dep_logic.markers.multi import MultiMarker
     from dep_logic.markers.union import MarkerUnion
 
+    if not (_has_exact_specifier(marker1) and _has_exact_specifier(marker2)):
+        return None
+
     if {marker1.name, marker2.name} == PYTHON_VERSION_MARKERS:
         return _merge_python_version_single_markers(marker1, marker2, merge_class)
 
@@ -417,6 +420,22 @@ def _merge_single_markers(
         if result_specifier == marker2.specifier:
             return marker2
         return MarkerExpression.from_specifier(marker1.name, result_specifier)
+
+
+def _has_exact_specifier(marker: MarkerExpression) -> bool:
+    """Whether ``marker.specifier`` admits exactly the values the atom is true on.
+
+    A literal-on-the-left version atom is evaluated as
+    ``Specifier(f"{op}{environment_value}").contains(literal)``. That is the mirrored
+    forward comparison only for ==, !=, <, <=, >, >= on a plain release literal:
+    ``~=`` has no mirror image, and a wildcard or pre/post/dev literal is not a
+    candidate version the mirrored specifier would describe.
+    """
+    if not marker.reversed or marker.name not in marker._VERSION_LIKE_MARKER_NAME:
+        return True
+    if marker.op in ("in", "not in"):
+        return True
+    return marker.op != "~=" and all(p.isdigit() for p in marker.value.split("."))
 
 
 def _merge_python_version_single_markers(
